@@ -40,6 +40,9 @@ func (m *Mutex) Unlock() {
 	sched.Point("Mutex.Unlock")
 }
 
+// VerifLocked reports the shim's lock state (harness observation, controlled executions only).
+func (m *Mutex) VerifLocked() bool { return m.locked }
+
 func (m *Mutex) TryLock() bool {
 	if !sched.Active() {
 		return m.real.TryLock()
